@@ -397,4 +397,181 @@ theorem hook_cancel_removes_exactly_its_own_entry (st : St) (id : Nat) (hn : (st
     ((step st (.cancelHook id)).1.hooks).Sublist st.hooks :=
   ⟨removeHook_not_mem id st.hooks hn, removeHook_keeps id st.hooks, removeHook_sublist id st.hooks⟩
 
+
+/-! ## B. Interleavings of writers, `Subscribe` and `Cancel` (any number of each)
+
+`Reach wants st`: `st` is reachable from the initial state by atomic steps of the lock protocol.
+Ghost fields give the statement its words: `activeAtStart w i` — subscription `i` had been added when write `w`
+began; `cancelReq i` — some `Cancel` of `i` has been called; `doneAtStart w2 w1` — write `w1` had returned when
+`w2` began; `log` — all send attempts `(writer, subscription, accepted)` in temporal order. -/
+
+open PB.SubsConc in
+/-- **No panic, ever:** in every reachable state nothing has sent on a closed feed or closed a feed twice, and every
+    subscription still in the controller's list has an open feed (so the next send cannot panic either). -/
+theorem no_send_on_closed (wants : Nat → Nat → Bool) (st : CSt) (h : Reach wants st) :
+    st.panicked = false ∧ ∀ i ∈ st.subs, st.closed i = false :=
+  ⟨(inv_reach h).noPanic, fun i hi => ((inv_reach h).subsOpen i hi).2⟩
+
+open PB.SubsConc in
+/-- The lock protocol holds: a canceller in its locked section excludes every notifier and every other canceller;
+    what a notifier still has to visit is still listed. -/
+theorem lock_protocol (wants : Nat → Nat → Bool) (st : CSt) (h : Reach wants st) :
+    (∀ c, (st.cpc c).inCS = true → st.rd = [] ∧ ∀ c', (st.cpc c').inCS = true → c' = c) ∧
+    (∀ w i, i ∈ remOf (st.wpc w) → i ∈ st.subs ∧ st.closed i = false) := by
+  have hi := inv_reach h
+  exact ⟨fun c hc => ⟨hi.wlRd (hi.csWl c hc), fun c' hc' => hi.csUnique c' c hc' hc⟩,
+    fun w i hr => ⟨hi.remSubs w i hr, (hi.subsOpen i (hi.remSubs w i hr)).2⟩⟩
+
+open PB.SubsConc in
+/-- **After cancel returns the feed is closed** — also for a `Cancel` that found the subscription already removed
+    by a concurrent `Cancel`. -/
+theorem cancel_returns_closed (wants : Nat → Nat → Bool) (st : CSt) (h : Reach wants st) (c : Nat)
+    (hc : st.cpc c = .done) : st.closed (st.ctarget c) = true :=
+  (inv_reach h).doneClosed c (Or.inr hc)
+
+open PB.SubsConc in
+/-- **… and concurrent writes no longer deliver to it:** once a feed is closed it stays closed and no step adds a
+    send attempt for it (and, by `no_send_on_closed`, no step panics). -/
+theorem closed_feed_silent (wants : Nat → Nat → Bool) (st st' : CSt) (a : Act) (h : Reach wants st)
+    (hs : step wants st a = some st') (i : Nat) (hc : st.closed i = true) :
+    st'.closed i = true ∧ st'.panicked = false ∧
+    st'.log.filter (fun e => e.2.1 == i) = st.log.filter (fun e => e.2.1 == i) := by
+  refine ⟨step_closed_mono hs i hc, (inv_reach (Reach.step a h hs)).noPanic, ?_⟩
+  rcases step_log hs with e | ⟨w, j, rem, b, _, hw, e⟩
+  · rw [e]
+  · have hi := inv_reach h
+    have hopen := (hi.subsOpen j (hi.remSubs w j (by rw [hw]; simp [remOf]))).2
+    have hne : j ≠ i := fun e' => by rw [e', hc] at hopen; simp at hopen
+    rw [e, List.filter_append]
+    simp [hne]
+
+open PB.SubsConc in
+/-- **Exactly once.** A write that began after subscription `i` was added and returned before any `Cancel` of `i`
+    was called has made exactly one send attempt to `i` if its record is for `i`, none otherwise — in every
+    interleaving with other writers, subscribers and cancels. -/
+theorem write_attempted_exactly_once (wants : Nat → Nat → Bool) (st : CSt) (h : Reach wants st) (w i : Nat)
+    (hdone : st.wpc w = .done) (hact : st.activeAtStart w i = true) (hnc : st.cancelReq i = false) :
+    (entries st.log w).count i = if wants w i then 1 else 0 := by
+  have hd := dinv_reach h
+  have hl := hd.logSnap w
+  unfold LogOk at hl
+  rw [hdone] at hl
+  rw [hl]
+  exact count_filter_nodup (wants w) (st.snap w) i (hd.snapNodup w) (hd.snapAct w i (Or.inr hdone) hact hnc)
+
+open PB.SubsConc in
+/-- **Other records are never delivered:** every send attempt is for a subscription the writer's record matches and
+    whose subscriber may see it, and that was in the controller's list when the writer took the read lock; a writer
+    attempts each subscription at most once. -/
+theorem attempts_only_matching_and_listed (wants : Nat → Nat → Bool) (st : CSt) (h : Reach wants st) :
+    (∀ e ∈ st.log, wants e.1 e.2.1 = true) ∧
+    (∀ w i, i ∈ entries st.log w → i ∈ st.snap w) ∧
+    (∀ w, (entries st.log w).Nodup) := by
+  have hd := dinv_reach h
+  refine ⟨hd.sound, ?_, ?_⟩
+  · intro w i hi
+    have hl := hd.logSnap w
+    unfold LogOk at hl
+    cases hw : st.wpc w with
+    | idle => rw [hw] at hl; rw [hl] at hi; simp at hi
+    | stored => rw [hw] at hl; rw [hl] at hi; simp at hi
+    | notifying rem =>
+      rw [hw] at hl
+      obtain ⟨pre, h1, h2⟩ := hl
+      rw [h2] at hi
+      rw [h1]
+      exact List.mem_append_left _ (List.mem_filter.mp hi).1
+    | done => rw [hw] at hl; rw [hl] at hi; exact (List.mem_filter.mp hi).1
+  · intro w
+    have hl := hd.logSnap w
+    have hn := hd.snapNodup w
+    unfold LogOk at hl
+    cases hw : st.wpc w with
+    | idle => rw [hw] at hl; rw [hl]; simp
+    | stored => rw [hw] at hl; rw [hl]; simp
+    | notifying rem =>
+      rw [hw] at hl
+      obtain ⟨pre, h1, h2⟩ := hl
+      rw [h2]
+      rw [h1] at hn
+      exact (List.nodup_append.mp hn).1.filter _
+    | done => rw [hw] at hl; rw [hl]; exact hn.filter _
+
+open PB.SubsConc in
+/-- What is in a feed, after what the subscriber already read, is exactly the sequence of accepted attempts for it,
+    in the order they were made (feeds are FIFO; an attempt is accepted iff the buffer had room — `step`). -/
+theorem feed_is_accepted_attempts_in_order (wants : Nat → Nat → Bool) (st : CSt) (h : Reach wants st) (i : Nat) :
+    st.consumed i ++ st.buf i = acceptedBy st.log i :=
+  (dinv_reach h).feed i
+
+open PB.SubsConc in
+/-- **Writes that do not overlap in time are delivered in their order:** if write `w1` had returned when `w2`
+    began, every attempt of `w1` precedes every attempt of `w2` in the log — hence in every feed. -/
+theorem nonoverlapping_writes_in_order (wants : Nat → Nat → Bool) (st : CSt) (h : Reach wants st) (w1 w2 : Nat)
+    (hstarted : st.wpc w2 ≠ .idle) (hbefore : st.doneAtStart w2 w1 = true) :
+    (∃ l1 l2, st.log = l1 ++ l2 ∧ (∀ e ∈ l1, e.1 ≠ w2) ∧ (∀ e ∈ l2, e.1 ≠ w1)) ∧
+    (∀ i, ∃ f1 f2, st.consumed i ++ st.buf i = f1 ++ f2 ∧ w2 ∉ f1 ∧ w1 ∉ f2) := by
+  have hd := dinv_reach h
+  have hb := hd.before w2 hstarted
+  have ha := (hd.after w2 w1 hstarted hbefore).2
+  refine ⟨⟨st.log.take (st.mark w2), st.log.drop (st.mark w2), (List.take_append_drop _ _).symm, hb, ha⟩, ?_⟩
+  intro i
+  refine ⟨acceptedBy (st.log.take (st.mark w2)) i, acceptedBy (st.log.drop (st.mark w2)) i, ?_, ?_, ?_⟩
+  · rw [hd.feed i]
+    unfold acceptedBy
+    rw [← List.map_append, ← List.filter_append, List.take_append_drop]
+  · unfold acceptedBy
+    intro hm
+    obtain ⟨e, he, he2⟩ := List.mem_map.mp hm
+    exact hb e (List.mem_filter.mp he).1 he2
+  · unfold acceptedBy
+    intro hm
+    obtain ⟨e, he, he2⟩ := List.mem_map.mp hm
+    exact ha e (List.mem_filter.mp he).1 he2
+
+open PB.SubsConc in
+/-- The pinned tree's `Cancel` (entry found by comparing query pointers) for the record: two subscriptions from one
+    query object, cancel the second — the first is removed, the second's feed is closed but stays listed, and the
+    next matching writer sends on a closed channel. The protocol above is that of the fixed code. -/
+theorem pinned_cancel_by_query_pointer_REFUTED :
+    ((runActs (fun _ _ => true) [.add 0, .add 1] {}).map (fun s => buggyCancel (fun _ => 7) s 1)).bind
+      (fun s => (runActs (fun _ _ => true) [.wStore 5, .wRLock 5, .wVisit 5] s).map (fun s' => (s.subs, s.closed 1, s'.panicked)))
+      = some ([1], true, true) := by
+  decide
+
+/-! ## Non-vacuity -/
+
+open PB.SubsConc in
+/-- A reachable run in which a write is delivered and the subscription is then cancelled while a second writer is
+    between its storage write and its notification: the second write is not delivered, nothing panics. -/
+example : ∃ st, Reach (fun _ _ => true) st ∧ st.buf 0 = [1] ∧ st.closed 0 = true ∧ st.wpc 2 = .done ∧ st.panicked = false ∧
+    st.log = [(1, 0, true)] := by
+  let acts : List Act := [.add 0, .wStore 1, .wRLock 1, .wVisit 1, .wRUnlock 1, .wStore 2, .cEnter 0 0, .cLock 0, .cRemove 0,
+    .cClose 0, .cUnlock 0, .wRLock 2, .wRUnlock 2]
+  have key : (runActs (fun _ _ => true) acts {}).map (fun st => (st.buf 0, st.closed 0, st.wpc 2, st.panicked, st.log)) =
+      some ([1], true, .done, false, [(1, 0, true)]) := by rfl
+  cases hr : runActs (fun _ _ => true) acts {} with
+  | none => rw [hr] at key; simp at key
+  | some st =>
+    rw [hr] at key
+    simp only [Option.map_some, Option.some.injEq, Prod.mk.injEq] at key
+    exact ⟨st, reach_runActs acts {} st Reach.init hr, key⟩
+
+/-- Sequential non-vacuity: a subscriber that may not see secrets, a replacing pre-put hook, one visible and one
+    secret write: exactly the visible one (as replaced) is offered and buffered. -/
+example :
+    let q : Query := ⟨false, fun k => k.startsWith "a", fun r => r.n > 3⟩
+    let hk : Hook := { id := 0, q := ⟨false, fun _ => true, fun _ => true⟩, usesPreGet := false, usesPostGet := false,
+                       usesPrePut := true, preGet := fun _ => none, postGet := fun _ => .pass,
+                       prePut := fun r => .replace { r with n := 7 } }
+    let li : Opts := { loc := true, int := true }
+    let ops : List Op := [.subscribe 0 { loc := true, int := false } q, .regHook hk,
+      .put li ⟨"a/x", 1, "foo", {}⟩ false, .put li ⟨"a/y", 1, "foo", { secret := true }⟩ false, .cancel 0,
+      .put li ⟨"a/z", 1, "foo", {}⟩ false]
+    (run (St.init ⟨.hashmap, false⟩) ops).1.closed.map (fun p => (p.1.buf, p.2)) = [([⟨"a/x", 7, "foo", {}⟩], 2)] ∧
+    (run (St.init ⟨.hashmap, false⟩) ops).1.writes.length = 3 := by
+  simp [run, step, St.init, ifacePut, putDenied, Opts.all, newForm, applyOpts, putPrepared, ctrlPut, runPrePut, runRec,
+    Query.matches, storeWrite, Cfg.putForm, notify, Sub.offer, Sub.visible, permitted, PB.Gen.Subs.checkPermission,
+    PB.Gen.Subs.feedCap, removeSub, sPut, sErase]
+
 end PB.C14
